@@ -1,6 +1,7 @@
 #include "common.h"
 
 #include <fcntl.h>
+#include <pthread.h>
 #include <setjmp.h>
 #include <signal.h>
 #include <stdarg.h>
@@ -257,7 +258,20 @@ static volatile sig_atomic_t guard_sig = 0;
 int guard_budget_s = 40;
 static struct BudgetInit { BudgetInit() { if (const char *e = getenv("VERIF_GUARD_S")) guard_budget_s = atoi(e); } } budget_init;
 
+static pthread_t guard_thread;
 static void on_fatal(int sig) {
+  // timer signals are process-directed and may land on a worker thread of the code under test:
+  // hand them to the thread that owns the jump buffer
+  if (guard_armed && (sig == SIGALRM || sig == SIGVTALRM) && !pthread_equal(pthread_self(), guard_thread)) {
+    pthread_kill(guard_thread, sig);
+    return;
+  }
+  if (guard_armed && !pthread_equal(pthread_self(), guard_thread)) {
+    // a fatal signal on another thread of the code under test: cannot be unwound from here
+    signal(sig, SIG_DFL);
+    raise(sig);
+    return;
+  }
   if (guard_armed) {
     guard_armed = 0;
     guard_sig = sig;
